@@ -48,7 +48,7 @@ Fixpoint drop {A} (n : nat) (l : list A) : list A :=
 
 Definition rf_previous (f : rfeed) (n : Z) : res (Z * Z * Z) :=
   let len := Z.of_nat (length (rf_rounds f)) in
-  check negb (len <? n) else EGuard;
+  check (n <? len) else EGuard;
   check (0 <=? n) else EGuard;
   let rest := drop (Z.to_nat n) (rf_rounds f) in
   Ok (rf_latest (mkRFeed (rf_owner f) rest)).
